@@ -188,7 +188,7 @@ def main(argv=None):
             print('  at: %s' % r.get('where'))
         except Exception as e:
             print('cannot read replay file: %s' % e)
-    ctx = Ctx(prop, a.tier, a.repo, no_cache=a.no_cache)
+    ctx = Ctx(prop, a.tier, a.repo, no_cache=a.no_cache or a.tier == 'thorough')
     status = 0
     try:
         mod = importlib.import_module('sa.rules.%s' % prop.lower())
@@ -207,6 +207,8 @@ def main(argv=None):
             ctx.note(traceback.format_exc()[-1500:])
 
     known, fixed = load_known(os.path.join(HERE, 'known_findings.txt'))
+    if a.tier == 'thorough':
+        thorough_extras(ctx, a, known)
     # report
     for rule in sorted(ctx.instances):
         ins = ctx.instances[rule]
@@ -249,6 +251,34 @@ def main(argv=None):
     return status
 
 
+def thorough_extras(ctx, a, known):
+    """Thorough tier = the quick rules on a fresh extraction, plus (E4) the compile-fail witnesses of the property and
+    (E6) the checker self-test: every seeded mutant and every confirmed seeded change of this property is applied to a
+    scratch copy of the tree under analysis and must be reported by the rules.  The self-test runs the checker only."""
+    from . import witness
+    try:
+        witness.check(ctx, a.repo, no_cache=False)
+    except Exception as e:
+        ctx.inconclusive(ctx.prop + '.W', 'witness stage error: %s: %s' % (type(e).__name__, e))
+    fresh = [v for v in ctx.violations if (ctx.prop, v['key']) not in known]
+    ctx.selftest = None
+    if fresh or ctx.inconclusives:
+        ctx.note('self-test skipped: the tree under analysis does not pass the rules, so mutants on top of it say nothing')
+        return
+    sys.path.insert(0, os.path.join(HERE, 'tools'))
+    import selftest
+    R = ctx.prop + '.SELFTEST'
+    res = selftest.run_for(ctx.prop, a.repo, jobs=int(os.environ.get('SELFTEST_JOBS', '8')))
+    ctx.selftest = [dict(id=i, status=st, detail=d[:300]) for i, st, d in res]
+    for i, st, d in res:
+        if st in ('killed', 'killed-other-rule'):
+            ctx.ok(R, 'seeded change %s is reported: %s' % (i, d[:160]), 'selftest/' + i)
+        elif st == 'skipped':
+            ctx.note('self-test: %s skipped (%s)' % (i, d))
+        else:
+            ctx.inconclusive(R, 'the rules no longer report seeded change %s on this tree (%s): %s' % (i, st, d[:200]))
+
+
 def write_evidence(ctx, mod, a, seed, wall, new_violations, known):
     tot = sum(o[0] for o in ctx.obligations.values())
     dis = sum(o[1] for o in ctx.obligations.values())
@@ -277,6 +307,11 @@ def write_evidence(ctx, mod, a, seed, wall, new_violations, known):
         extraction_s=round(ctx.extract_s, 2),
         clauses_not_decided=getattr(mod, 'NOT_DECIDED', ''),
     )
+    if getattr(ctx, 'selftest', None) is not None:
+        cov['selftest'] = dict(explanation='checker self-test: each seeded mutant / confirmed seeded change applied to a scratch '
+                               'copy of the analysed tree must be reported by the rules (runs the checker, not the library)',
+                               total=len(ctx.selftest), reported=sum(1 for x in ctx.selftest if x['status'].startswith('killed')),
+                               skipped=sum(1 for x in ctx.selftest if x['status'] == 'skipped'), items=ctx.selftest)
     ev = dict(property_id=ctx.prop, tier=a.tier, seed=seed, level=level, coverage=cov,
               assumptions=getattr(mod, 'ASSUMPTIONS', [
                   'type-based effects are sound: no pointer casts between tracked types (unsafe inventory checked)',
